@@ -96,3 +96,10 @@ claim("C17", "exploration",
       "be exactly the flattened reversed reverse statements and Reversible must equal 'every change has reverse statements'. MySQL / PostgreSQL up+down statement lists of all FK-graph scenarios over <= 3 tables are replayed through the catalogue model.",
       "MySQL / PostgreSQL only at catalogue level (no engine); rows are not compared after a down migration.",
       "3 C17")
+claim("C03", "exploration",
+      "exports as observation steps of SqliteModel.tla; every state created on a real SQLite engine in two DDL spellings, exported by Atlas (HCL and SQL), evaluated / re-created on fresh engines; TLC evaluates ExportTrace.tla on every observation; a sample through the real CLI",
+      "Every distinct catalogue state of the C01 corpus (about 6,900 state/spelling combinations) is created on a real SQLite file, inspected, exported as HCL and as the SQL creation script; the HCL is evaluated and diffed against the "
+      "inspection in both directions (must be empty), both exports are re-created on fresh engines and projected independently (must equal the original), two inspections must be byte-identical. Every 60th (6th thorough) state repeats "
+      "this through the real CLI (`schema inspect`, `{{ sql . }}`, `schema diff`, `schema apply`).",
+      "SQLite only; inline UNIQUE and a named unique index over the same columns are identified; the harness's projection is trusted (self-checked against the model state).",
+      "3 C03")
